@@ -106,6 +106,47 @@ type world struct {
 	curAct  bool   // its desiredState at the start of the reconcile
 	variant string
 	bNames  []string
+	// third: what a third party did in the middle of the current revision
+	// reconcile ("" = nothing), see interpose.
+	third        []string
+	thirdDeleted map[string]bool
+}
+
+// interpose lets a third party act between two API calls of a revision
+// reconcile, once per execution and at the cost of one deviation: just before
+// a call that addresses one of the package's objects, that object is deleted
+// (if it exists) or created under another owner's control (if it does not).
+func (w *world) interpose(c simkube.Call) simkube.Outcome {
+	if w.inj.Armed && c.Client == "rev" && c.Key.GK() == crdGK && len(w.third) == 0 && c.Key.Name != crdName("KW") && c.Key.Name != crdName("KF") {
+		exists := w.s.Peek(c.Key) != nil
+		what := "creates it under its own control"
+		if exists {
+			what = "deletes it"
+		}
+		if w.r.Choose(2, "third-party-before:"+c.String()) == 1 {
+			if exists {
+				w.s.Remove(c.Key)
+				if w.thirdDeleted == nil {
+					w.thirdDeleted = map[string]bool{}
+				}
+				w.thirdDeleted[c.Key.Name] = true
+			} else {
+				t := true
+				f := &unstructured.Unstructured{}
+				f.SetAPIVersion("apiextensions.k8s.io/v1")
+				f.SetKind("CustomResourceDefinition")
+				f.SetName(c.Key.Name)
+				f.SetOwnerReferences([]metav1.OwnerReference{{APIVersion: "v1", Kind: "ConfigMap", Name: "rival", UID: "rival-uid", Controller: &t}})
+				if w.s.Peek(simkube.ObjKey{Kind: "ConfigMap", Namespace: "default", Name: "rival"}) == nil {
+					w.s.Seed(&corev1.ConfigMap{TypeMeta: metav1.TypeMeta{APIVersion: "v1", Kind: "ConfigMap"}, ObjectMeta: metav1.ObjectMeta{Namespace: "default", Name: "rival", UID: "rival-uid"}})
+				}
+				w.s.Seed(f)
+			}
+			w.third = append(w.third, fmt.Sprintf("before %s a third party %s", c, what))
+			w.r.Logf("THIRD PARTY before %s: %s", c, what)
+		}
+	}
+	return w.inj.Decide(c)
 }
 
 func (w *world) revName(label string) string { return xpkg.FriendlyID("p", pkgh.Digest(label)) }
@@ -320,7 +361,7 @@ func body(r *explore.Run, rep *report.R, sc string, variant string, depth int) {
 	}
 	w := &world{s: s, reg: reg, fs: fs, r: r, variant: variant, bNames: bNames}
 	w.inj = &xrh.FaultInjector{Run: r, Reads: report.Thorough(), NoCrash: true, Filter: func(c simkube.Call) bool { return c.Client == "rev" }}
-	s.Inj = w.inj
+	s.Inj = simkube.InjectorFn(w.interpose)
 	mgr := pkgh.NewProviderManager(s.Client("mgr"), reg)
 	rr := w.newRevReconciler()
 	reconcileRev := func(name string) xrh.Outcome {
@@ -383,6 +424,7 @@ func body(r *explore.Run, rep *report.R, sc string, variant string, depth int) {
 			pre := crds(s)
 			logStart := len(s.Log)
 			taken := len(w.inj.Taken)
+			thirdBefore := len(w.third)
 			w.inj.Armed = true
 			out := reconcileRev(name)
 			w.inj.Armed = false
@@ -422,10 +464,17 @@ func body(r *explore.Run, rep *report.R, sc string, variant string, depth int) {
 				}
 			}
 			completed := out.Err == nil && len(faults) == 0 && healthy && !out.Result.Requeue
+			// An object a third party deleted in the middle of this reconcile is
+			// legitimately missing afterwards, and a failure to find it is not
+			// one of the reasons the property speaks about.
+			thirdDeleted := w.thirdDeleted
 			// E1: all or nothing. If the active revision could not establish
 			// its objects, it wrote none of them (unless an injected fault hit
 			// a real write half way, which no controller can avoid).
-			establishFailed := out.Err != nil && strings.Contains(out.Err.Error(), "cannot establish control of object")
+			// (A third party acting between the validation pass and the real
+			// writes of this very reconcile is a race no controller can close;
+			// all-or-nothing is judged on reconciles it did not interrupt.)
+			establishFailed := out.Err != nil && strings.Contains(out.Err.Error(), "cannot establish control of object") && len(w.third) == thirdBefore
 			if establishFailed && !faultOnRealWrite && len(realWrites) > 0 {
 				r.Failf("E1/partial-establish/"+variant, "revision %s failed to establish its objects (err %v) yet performed %v", name, out.Err, realWrites)
 			}
@@ -437,6 +486,9 @@ func body(r *explore.Run, rep *report.R, sc string, variant string, depth int) {
 				established[name] = true
 				for _, n := range want {
 					c := post[n]
+					if c == nil && thirdDeleted[n] {
+						continue
+					}
 					if c == nil {
 						r.Failf("E4/missing-object", "active revision %s reports healthy but %s does not exist", name, n)
 					}
@@ -459,7 +511,7 @@ func body(r *explore.Run, rep *report.R, sc string, variant string, depth int) {
 				for _, n := range want {
 					c := post[n]
 					if c == nil {
-						if pre[n] != nil {
+						if pre[n] != nil && !thirdDeleted[n] {
 							r.Failf("E3/object-deleted", "deactivating %s deleted %s", name, n)
 						}
 						continue
@@ -490,8 +542,8 @@ func body(r *explore.Run, rep *report.R, sc string, variant string, depth int) {
 		}
 	}
 	nt := ""
-	if len(w.inj.Taken) > 0 || strings.Contains(strings.Join(trail, ","), "rev-B") {
-		nt = report.Hash(variant, trail, w.inj.Taken)
+	if len(w.inj.Taken) > 0 || len(w.third) > 0 || strings.Contains(strings.Join(trail, ","), "rev-B") {
+		nt = report.Hash(variant, trail, w.inj.Taken, w.third)
 	}
 	rep.Eval(sc, report.Hash(describe(s)), nt)
 	if rep.WantSample() && len(w.inj.Taken) > 0 {
@@ -517,7 +569,7 @@ func describeCRD(c *unstructured.Unstructured) string {
 func TestCheck(t *testing.T) {
 	rep := report.New("C16", "fault_enumeration")
 	rep.Meta(
-		"Executions are event sequences of bounded depth, starting from package p with revision A (objects X,Y) established, over {package-manager reconcile, revision-A reconcile, revision-B reconcile, source edit to v2 / v1, garbage collector run, deletion of inactive revisions}; every API call (reads included) of a revision reconcile is a fault point {error-before, conflict, error-after}, <= 1 per sequence. Image B variants: plain upgrade {X',Z}; + W controlled by a revision of another package q; + an object the API server rejects; + F controlled by a foreign owner; + U pre-existing and uncontrolled. DFS with state-hash pruning ranked by remaining depth. Non-trivial: sequences that reconcile revision B or inject a fault.",
+		"Executions are event sequences of bounded depth, starting from package p with revision A (objects X,Y) established, over {package-manager reconcile, revision-A reconcile, revision-B reconcile, source edit to v2 / v1, garbage collector run, deletion of inactive revisions}; every API call (reads included) of a revision reconcile is a fault point {error-before, conflict, error-after}; instead of a fault, a third party may act once just before a call that addresses a package object (it deletes the object, or creates it under another owner's control if it does not exist); <= 1 deviation per sequence. Image B variants: plain upgrade {X',Z}; + W controlled by a revision of another package q; + an object the API server rejects; + F controlled by a foreign owner; + U pre-existing and uncontrolled. DFS with state-hash pruning ranked by remaining depth. Non-trivial: sequences that reconcile revision B or inject a fault.",
 		[]string{"simkube models the API server incl. dry-run and an admission predicate that answers identically for dry-run and real writes", "establisher concurrency 1 (its workers run one at a time); crash outcomes are not injected because the establisher issues calls from worker goroutines", "the Kubernetes garbage collector is modelled as 'delete objects all of whose owners are gone', run to a fixpoint as one event"},
 		[]string{"simkube", "go-containerregistry (real image construction)", "afero in-memory filesystem for the package cache"},
 	)
